@@ -286,6 +286,11 @@ func execute(sc Script, rep *kit.Report) error {
 	if res.panicked != nil {
 		return kit.Fail("compile-panic"+tagStr(static), "arc.CompileText panicked: %v\nsource:\n%s\n%s", res.panicked, src, trim(res.stack, 3000))
 	}
+	if res.err != nil && sc.Fall {
+		// a path falls off the end of the function: rejection is the specified outcome
+		rep.Class("fallthrough-program-rejected")
+		return nil
+	}
 	if res.err != nil {
 		// rejected by parser / analyzer / compiler with an error value: a discard
 		rep.Discard("rejected")
@@ -312,6 +317,12 @@ func execute(sc Script, rep *kit.Report) error {
 	mod, err := h.rt.InstantiateModule(ctx, compiled, wazero.NewModuleConfig().WithName(""))
 	if err != nil {
 		return kit.Fail("instantiate-failed"+tagStr(static), "module of an accepted program does not instantiate: %v\nsource:\n%s", err, src)
+	}
+	if sc.Fall {
+		// accepted although a path does not return: the module validated and instantiated,
+		// which is all the property asks of an accepted program; its result is unspecified
+		rep.Class("fallthrough-program-accepted")
+		return nil
 	}
 	fn := mod.ExportedFunction(funcName)
 	if fn == nil {
